@@ -2366,6 +2366,21 @@ func marshalSANs(dnsNames, emailAddresses []string, ipAddresses []net.IP) (derBy
 	return asn1.Marshal(rawValues)
 }
 
+// ipAndMask returns the iPAddress form of a name-constraint range: address followed by mask.
+// An IPv4 network given with its address in 16-byte form and a 4-byte mask is encoded in 4+4
+// bytes (as marshalSANs does for addresses).
+func ipAndMask(n net.IPNet) []byte {
+	ip := n.IP
+	if len(n.Mask) == net.IPv4len {
+		if ip4 := ip.To4(); ip4 != nil {
+			ip = ip4
+		}
+	}
+	out := make([]byte, 0, len(ip)+len(n.Mask))
+	out = append(out, ip...)
+	return append(out, n.Mask...)
+}
+
 // NOTE ignoring authorityKeyID argument
 func buildExtensions(template *Certificate, _ []byte) (ret []pkix.Extension, err error) {
 	ret = make([]pkix.Extension, 10 /* Max number of elements. */)
@@ -2537,11 +2552,11 @@ func buildExtensions(template *Certificate, _ []byte) (ret []pkix.Extension, err
 			out.Excluded = append(out.Excluded, generalSubtree{Value: asn1.RawValue{Tag: 4, Class: 2, IsCompound: true, Bytes: dn}})
 		}
 		for _, permitted := range template.PermittedIPAddresses {
-			ip := append(permitted.Data.IP, permitted.Data.Mask...)
+			ip := ipAndMask(permitted.Data)
 			out.Permitted = append(out.Permitted, generalSubtree{Value: asn1.RawValue{Tag: 7, Class: 2, Bytes: ip}})
 		}
 		for _, excluded := range template.ExcludedIPAddresses {
-			ip := append(excluded.Data.IP, excluded.Data.Mask...)
+			ip := ipAndMask(excluded.Data)
 			out.Excluded = append(out.Excluded, generalSubtree{Value: asn1.RawValue{Tag: 7, Class: 2, Bytes: ip}})
 		}
 		ret[n].Value, err = asn1.Marshal(out)
